@@ -59,6 +59,16 @@ TRUSTED_BASE = [
     'Model/FpCodegen.lean: hand model of the floating arms of cmp_zero/cast/load/gen_expr (ND_NUM, ND_NEG, binary operators, '
     'truth-test contexts); tied by text equality with `chibicc -S` on every conversion cell (12x12), every operator x type pair with a '
     'floating common type, every truth-test context and a battery of constants',
+    'Model/FpChain.lean: hand model of the ND_CAST arm of gen_expr on nests of casts (one cast() per node, innermost first, nothing '
+    'elided), of store() and of the ND_ASSIGN / ND_COND / return contexts around it; tied by text equality with `chibicc -S` on every '
+    '(source, cast, return type) triple, on round trips through assignments and on generated chains of up to 4 casts and `?:` arms '
+    '(~3,200 functions quick). C02_cast_chain is about this model; its integer-only links are C01\'s C01_cast (Lemmas/C01Lemmas) '
+    'transported to the floating machine; Spec/FpChainSpec.lean (a chain of conversions = the composition of the single conversions, in '
+    'order; my reading of C11 6.5.4p5, 6.3.1.4, 6.3.1.5, 6.5.16.1p2, 6.8.6.4p3, 6.5.2.2p7) is validated against gcc on generated chains',
+    'C02_binary_value_sse / _x87 take the code of the operand evaluated second as a parameter that must yield its value from every '
+    'state without writing memory, %rsp, the control word or the x87 stack (`Yields`): loads through `lea sym(%rip)` are not executable '
+    'in Model/FpMachine, so the theorems cover the conversion/save/restore/operate skeleton gen_expr wraps around the operand codes, not '
+    'the loads themselves (those are covered end to end by the oracle)',
     'translators tools/extract/casttable.py (cast_table cells as structured instructions, getTypeId), commontype.py '
     '(get_common_type) and fpliteral.py (suffix ladder of convert_pp_number: bytes, type, libc function kept)',
     'Model/FpLiteral.lean: hand model of the floating branch of convert_pp_number over that ladder (end++ / length test); tied by '
@@ -858,7 +868,11 @@ def correspond(ctx, corr):
                  'side.  Constants: decimal/hex spellings x suffixes, halfway cases and their neighbours (rounded once: a value that rounding '
                  'through long double would change is counted).  Unsigned long <-> floating at and above 2^63: sticky-bit / half-way patterns for '
                  'float and double, the neighbours of 2^63 and 2^64 in each format, fractions, negatives and NaN (undefined cases dropped and '
-                 'counted).  non-trivial = some operand is '
+                 'counted).  Chains: every round trip T -> F -> T over the 12 types and seeded chains of 2-4 conversions, the last one '
+                 'explicit or implicit (initialisation, return, argument passing), operands of ?: converted to the common type, compound '
+                 'assignment with a floating constant; per link the values just above 2^24 / 2^53 / 2^63, 2^64-1, negatives, sticky-bit '
+                 'patterns; spec = composition of the single conversions (a NaN through floating -> floating links: only NaN-ness compared).  '
+                 'Text legs: chibicc -S of one-operation functions and of functions with chains of casts against the Lean model.  non-trivial = some operand is '
                  'not a non-negative integer below 2^15 (the kind of value the suite samples); distinct = by (operation, types, operand bits).')
     run_text_tie(ctx, corr)
     CH.run_chain_tie(ctx, corr)
@@ -920,16 +934,26 @@ MANIFEST = {
                   'datum of the constant converted to the node type), C02_const_parser / C02_const_literal / C02_const_rounded (over the '
                   'suffix ladder regenerated from tokenize.c: each suffix keeps the result of the libc function of its own type, the '
                   'emitted code materialises exactly that datum, i.e. the spelling rounded once), and without any FPU contract: '
+                  'C02_cast_link (cast(from,to) implements the C11 conversion for ALL 144 pairs: the 81 integer-only cells by C01_cast '
+                  'transported to the floating machine), C02_cast_chain (gen_expr on (Tn)...(T1)e prints one cast() per ND_CAST node and the '
+                  'code computes the composition of the C11 conversions in order, for chains of any length over the 12 arithmetic types, '
+                  'explicit or inserted by parse.c; precision-control hypothesis stated once), C02_roundtrip_rounds / '
+                  'C02_roundtrip_not_identity ((T)(float)e is e rounded to 24 bits, (T)(double)e to 53; kernel-checked: 16777217 -> 16777216, '
+                  '2^53+1 -> 2^53, the operand code alone does not compute it), C02_binary_code (for all 10 operators x 63 type pairs with a '
+                  'floating common type each operand is converted by cast(its type, usualArith a b) and the operator of the common type is '
+                  'applied, operands of > >= exchanged), C02_binary_value_sse / C02_binary_value_x87 (the value of a OP b in both evaluation '
+                  'orders of gen_expr: (c)x OP (c)y with the left operand first; the right operand survives pushf/popf because conversions to '
+                  'float/double use registers only), and without any FPU contract: '
                   'C02_ieee_int_roundtrip / C02_ieee_int_exact / C02_ieee_trunc_back (on the IEEE/x87 bit layouts alone: the encoding of an integer decodes to the integer rounded to 24/53/64 bits, exactly for |n| <= 2^24/2^53/2^64, and truncation gives the integer back).  '
                   'Tied to the code every run: table translators, text equality of the hand model with chibicc -S (~880 one-operation '
-                  'functions), the literal model against the tokenizer, and an end-to-end oracle chibicc vs gcc vs exact rational arithmetic '
-                  'on ~60k (quick) generated cases over the boundary classes of the property.',
+                  'functions + ~3,200 functions with chains of casts), the literal model against the tokenizer, and an end-to-end oracle chibicc vs gcc vs exact rational arithmetic '
+                  'on ~120k (quick) generated cases over the boundary classes of the property, including chains of 2-4 conversions, explicit and implicit.',
     'level_note': 'PARTIAL BY CONSTRUCTION only in this sense: numeric results are relative to FpuSpec (validated on hardware, not proved) '
                   'and to the libc contract for strtof/strtod/strtold. No _Statement is left open and there is no known finding: the three '
                   'former findings (unsigned long -> float at >= 2^63, floating -> unsigned long at >= 2^63, literals rounded twice through '
                   'strtold) were repaired in /repo; Findings/C02.lean keeps kernel-checked witnesses that the OLD formulas were wrong. Not '
-                  'modelled in Lean: where strtold stops scanning, eval_double, parse.c rewritings of op= / ++ / --, variadic promotions: '
-                  'these are covered by the gcc oracle only.',
+                  'modelled in Lean: where strtold stops scanning, eval_double, parse.c rewritings of op= / ++ / --, variadic promotions, '
+                  'argument passing around a cast chain, the loads of operands (lea sym(%rip)): these are covered by the gcc oracle only.',
     'technique': 'Lean 4 proof over abstract FPU contracts: kernel evaluation of the generated instruction strings on a machine model '
                  '(incl. forward branches), BitVec/Int/Nat arithmetic for the integer side and for round-to-odd, whole-table decide; '
                  'translator-regenerated tables; asm-text correspondence; three-way differential oracle (chibicc, gcc, exact rational '
